@@ -53,7 +53,7 @@ inductive SWShape
   /-- `write_all` / `write_one` created, not polled yet (holds the values) -/
   | allNew (n : Nat) (one : Bool) (items : List Nat) (gd hdn : Bool) (win rcv : List Nat)
   /-- `write_all` between two writes of one poll (`running`) -/
-  | running (n : Nat) (one : Bool) (b : AbiBuffer) (gd hdn : Bool) (win rcv : List Nat)
+  | running (n : Nat) (one : Bool) (b : AbiBuffer) (gs gd hdn : Bool) (win rcv : List Nat)
   /-- a write is in flight: the host is copying, the operation is registered -/
   | waiting (n : Nat) (k : OpK) (b : AbiBuffer) (pr : Nat) (pend : Option Nat) (rcv : List Nat)
   /-- the event was delivered, the future has not been polled yet -/
@@ -72,8 +72,8 @@ def swSys (p : SWP) : SWShape → ChanSys
   | .allNew n one items gd hdn win rcv =>
     ⟨{ p.g0 with opened := true, nextId := n, sw := some ⟨p.hd, gd⟩, act := .sall one (.unpolled items) },
      swHost p (stOf hdn) 0 0 none win rcv false, ⟨some p.t, []⟩⟩
-  | .running n one b gd hdn win rcv =>
-    ⟨{ p.g0 with opened := true, nextId := n, sw := some ⟨p.hd, gd⟩, running := true,
+  | .running n one b gs gd hdn win rcv =>
+    ⟨{ p.g0 with opened := true, nextId := n, sw := some ⟨p.hd, gs⟩, running := true,
                  act := .sall one (.awaiting false (WOp.new ⟨b, ⟨p.hd, gd⟩⟩)) },
      swHost p (stOf hdn) 0 0 none win rcv false, ⟨some p.t, []⟩⟩
   | .waiting n k b pr pend rcv =>
@@ -97,7 +97,7 @@ def swOk (p : SWP) : SWShape → Prop
   | .idle _ gd hdn kept _ _ => (gd = true → hdn = true) ∧ (∀ b, kept = some b → p.okBuf b)
   | .ready _ gd hdn b _ _ => (gd = true → hdn = true) ∧ p.okBuf b
   | .allNew _ _ _ gd hdn _ _ => (gd = true → hdn = true)
-  | .running _ _ b gd hdn _ _ => (gd = true → hdn = true) ∧ p.okBuf b ∧ b.remaining ≠ 0 ∧ (hdn = true → gd = true)
+  | .running _ _ b gs gd hdn _ _ => (gd = true → hdn = true) ∧ p.okBuf b ∧ b.remaining ≠ 0 ∧ (hdn = true → gd = true) ∧ (gs = true → gd = true)
   | .waiting _ _ b pr pend _ =>
     p.okBuf b ∧ pr ≤ offerOf b ∧
     (pend = none ∧ pr = 0 ∨ pend = some (Host.packCode Host.COMPLETED pr) ∨ pend = some (Host.packCode Host.DROPPED pr))
@@ -486,18 +486,18 @@ theorem sw_allNew (p : SWP) (n : Nat) (one : Bool) (items : List Nat) (gd hdn : 
         by_cases hr : items.length - k = 0
         · cases one <;> sw_go [.idle n false false none items (rcv ++ items.take k)]
         · cases one <;>
-            sw_go [.running n false { (AbiBuffer.new p.c p.kind items).1 with items := items, cursor := k } false false items (rcv ++ items.take k),
-                   .running n true { (AbiBuffer.new p.c p.kind items).1 with items := items, cursor := k } false false items (rcv ++ items.take k)]
+            sw_go [.running n false { (AbiBuffer.new p.c p.kind items).1 with items := items, cursor := k } false false false items (rcv ++ items.take k),
+                   .running n true { (AbiBuffer.new p.c p.kind items).1 with items := items, cursor := k } false false false items (rcv ++ items.take k)]
   | close ex ans => clear hl hn; cases ex <;> cases hdn <;> sw_go [.gone n .idle win rcv, .gone n .done win rcv]
   | peerDrop => clear hl hn; cases hdn <;> sw_go [.allNew n one items gd false win rcv, .allNew n one items gd true win rcv]
   | _ => clear hl hn; sw_go [.allNew n one items gd hdn win rcv, .idle n gd hdn none win rcv]
 
-theorem sw_running (p : SWP) (n : Nat) (one : Bool) (b : AbiBuffer) (gd hdn : Bool) (win rcv : List Nat)
-    (hh : p.hd ≠ 0) (hv : p.v = 1 ∨ p.v = 2) (hok : swOk p (.running n one b gd hdn win rcv)) (l : CLabel)
-    (hl : SWLegal p (swSys p (.running n one b gd hdn win rcv)) l) :
-    SWGood p ((swSys p (.running n one b gd hdn win rcv)).step l) := by
+theorem sw_running (p : SWP) (n : Nat) (one : Bool) (b : AbiBuffer) (gs gd hdn : Bool) (win rcv : List Nat)
+    (hh : p.hd ≠ 0) (hv : p.v = 1 ∨ p.v = 2) (hok : swOk p (.running n one b gs gd hdn win rcv)) (l : CLabel)
+    (hl : SWLegal p (swSys p (.running n one b gs gd hdn win rcv)) l) :
+    SWGood p ((swSys p (.running n one b gs gd hdn win rcv)).step l) := by
   simp only [swOk] at hok
-  obtain ⟨hgd, hb, hrem, hdg⟩ := hok
+  obtain ⟨hgd, hb, hrem, hdg, hgs⟩ := hok
   obtain ⟨hl, hn, hopn⟩ := hl
   clear hopn hn
   cases l with
@@ -507,11 +507,13 @@ theorem sw_running (p : SWP) (n : Nat) (one : Bool) (b : AbiBuffer) (gd hdn : Bo
       have : hdn = true := hgd rfl
       subst this
       clear hl
-      cases one <;> sw_go [.idle n true true none b.window rcv]
+      cases one <;> cases gs <;> sw_go [.idle n true true none b.window rcv]
     | false =>
       have hdn0 : hdn = false := by cases hdn <;> simp_all
       subst hdn0
-      have hli : (swSys p (.running n one b false false win rcv)).h.e.legalImmediate (offerOf b) ans = true := by
+      have hgs0 : gs = false := by cases gs <;> simp_all
+      subst hgs0
+      have hli : (swSys p (.running n one b false false false win rcv)).h.e.legalImmediate (offerOf b) ans = true := by
         sw_legal; exact hl
       clear hl
       rcases legalImmediate_stream _ _ _ rfl hli with rfl | rfl | ⟨k, rfl, hk, hk1⟩
@@ -525,8 +527,8 @@ theorem sw_running (p : SWP) (n : Nat) (one : Bool) (b : AbiBuffer) (gd hdn : Bo
         by_cases hr : b.items.length - (b.cursor + k) = 0
         · cases one <;> sw_go [.idle n false false none b.window (rcv ++ b.window.take k)]
         · cases one <;>
-            sw_go [.running n false { b with cursor := b.cursor + k } false false b.window (rcv ++ b.window.take k),
-                   .running n true { b with cursor := b.cursor + k } false false b.window (rcv ++ b.window.take k)]
+            sw_go [.running n false { b with cursor := b.cursor + k } false false false b.window (rcv ++ b.window.take k),
+                   .running n true { b with cursor := b.cursor + k } false false false b.window (rcv ++ b.window.take k)]
   | _ => sw_legal
 
 /-- the three forms of the pending event of a write in flight -/
@@ -804,14 +806,13 @@ theorem sw_queued (p : SWP) (n : Nat) (k : OpK) (b : AbiBuffer) (code : Nat) (rc
           rcases Nat.eq_zero_or_pos j with rfl | hjp <;> (try have hj0 : j ≠ 0 := by omega) <;>
           (try simp only [Nat.add_zero] at hr hb') <;>
           cases one <;> cases first <;> rcases hv with hv | hv <;>
-          sw_go [.running n false { b with cursor := b.cursor + j } false false b.window rcv,
-                 .running n true { b with cursor := b.cursor + j } false false b.window rcv,
-                 .running n false { b with cursor := b.cursor + j } true true b.window rcv,
-                 .running n true { b with cursor := b.cursor + j } true true b.window rcv,
+          sw_go [.running n false { b with cursor := b.cursor + j } false false false b.window rcv,
+                 .running n true { b with cursor := b.cursor + j } false false false b.window rcv,
+                 .running n false { b with cursor := b.cursor + j } false true true b.window rcv,
+                 .running n true { b with cursor := b.cursor + j } false true true b.window rcv,
                  .idle n false true none b.window rcv] <;>
-          (first | (refine ⟨.running n false b false false b.window rcv, ?_⟩; sw_chk; done)
-                 | (refine ⟨.running n true b false false b.window rcv, ?_⟩; sw_chk; done)
-                 | (refine ⟨.running n false b false false b.window rcv, ?_⟩; sw_chk))
+          (first | sw_try (.running n false { b with cursor := b.cursor } false false false b.window rcv)
+                 | sw_try (.running n true { b with cursor := b.cursor } false false false b.window rcv))
   | cancel a =>
     clear hl
     cases k with
@@ -843,5 +844,47 @@ theorem sw_queued (p : SWP) (n : Nat) (k : OpK) (b : AbiBuffer) (code : Nat) (rc
     | all one first =>
       rcases hbase' with rfl | rfl <;> rcases hv with hv | hv <;>
         sw_go [.queued n (.all one first) b (0 + 16 * j) rcv, .queued n (.all one first) b (1 + 16 * j) rcv]
+
+theorem sw_gone (p : SWP) (n : Nat) (st : CopySt) (win rcv : List Nat) (hh : p.hd ≠ 0) (hv : p.v = 1 ∨ p.v = 2)
+    (hok : swOk p (.gone n st win rcv)) (l : CLabel)
+    (hl : SWLegal p (swSys p (.gone n st win rcv)) l) : SWGood p ((swSys p (.gone n st win rcv)).step l) := by
+  simp only [swOk] at hok
+  have hst : st = .idle ∨ st = .done := by cases st <;> simp at hok ⊢
+  obtain ⟨hl, hn, hopn⟩ := hl
+  clear hopn hn
+  cases l with
+  | deferStart ans => sw_legal
+  | peerXfer k => rcases hst with rfl | rfl <;> sw_legal
+  | deliver => sw_legal
+  | close ex ans => clear hl; cases ex <;> rcases hst with rfl | rfl <;> sw_go [.gone n .idle win rcv, .gone n .done win rcv]
+  | _ => clear hl; rcases hst with rfl | rfl <;> sw_go [.gone n .idle win rcv, .gone n .done win rcv]
+
+/-- Every legal step from a state satisfying the invariant is good. -/
+theorem sw_step_safe (p : SWP) (s : ChanSys) (l : CLabel) (hI : SWInv p s) (hl : SWLegal p s l) :
+    SWGood p (s.step l) := by
+  obtain ⟨hh, hv, sh, rfl, hok⟩ := hI
+  cases sh with
+  | closed => exact sw_closed p hh hv l hl
+  | idle n gd hdn kept win rcv => exact sw_idle p n gd hdn kept win rcv hh hv hok l hl
+  | ready n gd hdn b win rcv => exact sw_ready p n gd hdn b win rcv hh hv hok l hl
+  | allNew n one items gd hdn win rcv => exact sw_allNew p n one items gd hdn win rcv hh hv hok l hl
+  | running n one b gs gd hdn win rcv => exact sw_running p n one b gs gd hdn win rcv hh hv hok l hl
+  | waiting n k b pr pend rcv => exact sw_waiting p n k b pr pend rcv hh hv hok l hl
+  | queued n k b code rcv => exact sw_queued p n k b code rcv hh hv hok l hl
+  | gone n st win rcv => exact sw_gone p n st win rcv hh hv hok l hl
+
+/-- states reachable from a fresh guest-writer stream channel by legal labels -/
+inductive SWReach (p : SWP) : ChanSys → List Ev → Prop
+  | init : SWReach p (swSys p .closed) []
+  | step {s tr l s' evs} : SWReach p s tr → SWLegal p s l → s.step l = .ok s' evs → SWReach p s' (tr ++ evs)
+
+theorem sw_reach_inv {p : SWP} (hh : p.hd ≠ 0) (hv : p.v = 1 ∨ p.v = 2) {s tr} (h : SWReach p s tr) :
+    SWInv p s ∧ s.h.trapped = false := by
+  induction h with
+  | init => exact ⟨⟨hh, hv, .closed, rfl, trivial⟩, rfl⟩
+  | step hr hl hs ih =>
+    have hg := sw_step_safe p _ _ ih.1 hl
+    rw [hs] at hg
+    exact ⟨hg.2, hg.1⟩
 
 end Witverif.Async
